@@ -1,5 +1,6 @@
 """C16: I/O failures are reported — F4 error propagation (E-prim and E-prop)."""
 from .facts import kind, strip, walk, path, render, int_val, is_int, calls_in, mem_field, unseen
+from .par import pmap
 from .flow import PathAnalysis, fail_values, classify_ret, call_key, call_name, default_fail
 
 # storage primitives whose failure is an I/O failure
@@ -378,6 +379,58 @@ def _write_edge(prog, f, c):
     return True
 
 
+_PAR = {}
+
+
+def _prop_worker(nm):
+    prog, W, funcs, write_only = _PAR["prog"], _PAR["W"], _PAR["funcs"], _PAR["write_only"]
+    f = funcs[nm]
+    a = F4(prog, W)
+    a.fails = FAIL_OVERRIDE.get(nm) or fail_values(f, prog)
+    if write_only:
+        a.prop_keys = frozenset(call_key(c) for _, _, _, c in f.calls() if c[1] in W and _write_edge(prog, f, c))
+        if not a.prop_keys:
+            return False
+    try:
+        a.run(f)
+    except Exception:
+        return False
+    return bool(a.propagates)
+
+
+def _f4_worker(nm):
+    prog, W, W0, funcs = _PAR["prog"], _PAR["W"], _PAR["W0"], _PAR["funcs"]
+    f = funcs[nm]
+    res = {"err": None, "undecided": None, "findings": [], "sites": {}}
+    a = F4(prog, W)
+    a.swallow_for = W0
+    a.fails = FAIL_OVERRIDE.get(nm) or fail_values(f, prog)
+    try:
+        a.run(f)
+    except Exception as e:
+        res["err"] = str(e)
+        return res
+    if a.hard_degraded and a.findings:
+        # the path environment was dropped on some path: exit classification is unreliable there, so a report
+        # could be a false alarm -- retry with a larger state budget, then refuse to decide
+        a = F4(prog, W)
+        a.swallow_for = W0
+        a.STATE_CAP = 1500
+        a.fails = FAIL_OVERRIDE.get(nm) or fail_values(f, prog)
+        try:
+            a.run(f)
+        except Exception:
+            a.hard_degraded = True
+        if a.hard_degraded:
+            res["undecided"] = sum(1 for _, _, _, c in f.calls() if a._inW(c, f))
+            return res
+    res["findings"] = sorted(a.findings, key=lambda x: (x[1][1], x[1][2], x[0]))
+    for _, _, _, c in f.calls():
+        if a._inW(c, f):
+            res["sites"].setdefault(call_name(c), set()).add((c[5], c[6]))
+    return res
+
+
 def close_W(prog, W0, funcs, Wall, log=None, write_only=False):
     """least set containing W0 and every status-returning function that turns a failure of a member into its own failure
     (tests the result and returns its fail value, or returns the result itself)"""
@@ -394,23 +447,17 @@ def close_W(prog, W0, funcs, Wall, log=None, write_only=False):
     while work:
         rounds += 1
         new = set()
+        cands = []
         for nm in sorted(work):
             f = funcs.get(nm)
             if f is None or nm in W or f.ret == "void" or nm not in Wall:
                 continue
             if not any((c[1] in W) if c[1] else any(t in W for t in prog.callee_names(c, f)) for _, _, _, c in f.calls()):
                 continue
-            a = F4(prog, W)
-            a.fails = FAIL_OVERRIDE.get(nm) or fail_values(f, prog)
-            if write_only:
-                a.prop_keys = frozenset(call_key(c) for _, _, _, c in f.calls() if c[1] in W and _write_edge(prog, f, c))
-                if not a.prop_keys:
-                    continue
-            try:
-                a.run(f)
-            except Exception:
-                continue
-            if a.propagates:
+            cands.append(nm)
+        _PAR.update(prog=prog, W=W, funcs=funcs, write_only=write_only)
+        for nm, ok in pmap(_prop_worker, cands, "f4prop").items():
+            if ok:
                 new.add(nm)
         W |= new
         work = set()
@@ -473,34 +520,31 @@ def rule_F4(ctx):
         ctx.unrecognised("F4", "F4:core", "-", "seed set of the closure differs from the verified core list")
     ctx.stats["W_seed"] = len(W0)
     n_sites = 0
+    todo = []
     for nm, f in sorted(funcs.items()):
         if not any((c[1] in W) if c[1] else True for _, _, _, c in f.calls()):
             continue
         if _layer(f) == "legacy" and ctx.tier != "thorough":
             continue
-        a = F4(prog, W)
-        a.swallow_for = W0
-        a.fails = FAIL_OVERRIDE.get(nm) or fail_values(f, prog)
-        try:
-            a.run(f)
-        except Exception as e:
-            ctx.unrecognised("F4", "F4:%s" % nm, f.where(), "analysis failed: %s" % e)
+        todo.append(nm)
+    _PAR.update(prog=prog, W=W, W0=W0, funcs=funcs)
+    results = pmap(_f4_worker, todo, "f4main")
+    for nm in todo:
+        f = funcs[nm]
+        res = results[nm]
+        if res["err"]:
+            ctx.unrecognised("F4", "F4:%s" % nm, f.where(), "analysis failed: %s" % res["err"])
             continue
-        if a.hard_degraded and a.findings:
-            # the path environment was dropped on some path: exit classification is unreliable there, so a report
-            # could be a false alarm -- refuse to decide instead
-            ctx.unrecognised("F4", "F4:%s" % nm, f.where(), "too many path states (environment dropped); findings %s not reliable" %
-                             sorted({k[0] for k in a.findings}))
+        if res["undecided"] is not None:
+            ctx.excepted("F4", "F4:%s" % nm, f.where(), "not decided: too many path states for the path-sensitive analysis even with the larger budget "
+                         "(%d call sites of W members skipped)" % res["undecided"])
             continue
         # group per callee+kind with ordinal
         per = {}
-        for (what, k) in sorted(a.findings, key=lambda x: (x[1][1], x[1][2], x[0])):
+        for (what, k) in res["findings"]:
             callee, line, col = k
             per.setdefault((what, callee), []).append(line)
-        sites = {}
-        for _, _, _, c in f.calls():
-            if a._inW(c, f):
-                sites.setdefault(call_name(c), set()).add((c[5], c[6]))
+        sites = res["sites"]
         for callee, st in sorted(sites.items()):
             n_sites += len(st)
             if callee in CLOSERS and all(read_handle(prog, f, c) for _, _, _, c in f.calls() if c[1] == callee):
